@@ -277,6 +277,8 @@ def rule_order_and_recursion(ctx: Ctx) -> None:  # noqa: C901, PLR0912
             n4 += 1
             dfn = Defs(fn)
             flat = [c for e in exprs for c in ast.walk(e) if isinstance(c, ast.Call) and dotted(c.func) in ("tuple", "list") and c.args and any(w in norm(dfn.resolve(c.args[0])) for w in ("flatten", "ravel", "flat", "tolist"))]
+            # the raw buffer of an object array holds pointers, not values
+            flat += [c for e in exprs for c in ast.walk(e) if isinstance(c, ast.Call) and isinstance(c.func, ast.Attribute) and c.func.attr in ("tobytes", "tostring", "view") and norm(dfn.resolve(c.func.value)).split(".")[0] == "obj"]
             unguarded = []
             for c in flat:
                 g = False
@@ -321,6 +323,29 @@ def rule_order_and_recursion(ctx: Ctx) -> None:  # noqa: C901, PLR0912
     ctx.floor("4-recursive", n4, 10)
 
 
+FLATTENERS = {"asdict": "dataclasses.asdict turns NESTED dataclass instances into plain dicts", "astuple": "dataclasses.astuple turns NESTED dataclass instances into plain tuples",
+              "dumps": "a JSON/str dump drops the types of the nested values", "vars": "vars() of the object drops its type"}
+
+
+def rule_no_preflattening(ctx: Ctx) -> None:
+    """Nested values reach to_hashable as they are: nothing flattens them first.
+
+    Rule 1 tags every converted value with its exact type; that only covers nested values if the recursion sees them
+    unconverted.  A recursive flattener (dataclasses.asdict / astuple, a JSON dump) applied to the object before to_hashable
+    erases the classes of the nested values, so objects that differ only in a nested class get one key."""
+    fn = ctx.prog.func(f"{MOD}.to_hashable")
+    hits = []
+    for c in [c for c in ast.walk(fn.node) if isinstance(c, ast.Call) and _last(dotted(c.func)) in CONVERTERS]:
+        for a in c.args[:1]:
+            for inner in [x for x in ast.walk(Defs(fn).resolve(a)) if isinstance(x, ast.Call) and _last(dotted(x.func)) in FLATTENERS and "cloudpickle" not in dotted(x.func) and "pickle" not in dotted(x.func)]:
+                hits.append((c, inner))
+    if hits:
+        for c, inner in hits:
+            ctx.add("4-recursive", fn, inner, False, f"`{norm(inner)[:50]}` flattens the object before to_hashable sees its parts ({FLATTENERS[_last(dotted(inner.func))]}): values that differ only in the class of a nested part get the same key", key=f"preflatten {_last(dotted(inner.func))}")
+    else:
+        ctx.add("4-recursive", fn, fn.node, True, "no recursive flattener (asdict / astuple / dumps / vars) feeds to_hashable", key="preflatten")
+
+
 def rule_total(ctx: Ctx) -> None:
     fn, _b = _to_hashable_facts(ctx)
     n5 = 0
@@ -362,7 +387,9 @@ def rule_identity(ctx: Ctx) -> None:
                 n6 += 1
                 used = any(a in attrs_used for a in alts.split("|"))
                 lossy = " (to_dict() keys lose order and duplicate labels)" if t == "Series" and alts == "index" and not used else ""
-                ctx.add("6-identity", fn, ret, used, f"{t}: key includes `{alts}`" if used else f"{t}: key does not include `{alts}` - {why}{lossy}", key=f"{t}.{alts}")
+                # how the labels are (half) represented is part of the finding's identity: dropping them altogether is a different defect
+                how = " (to_dict)" if not used and "to_dict" in attrs_used else ""
+                ctx.add("6-identity", fn, ret, used, f"{t}: key includes `{alts}`" if used else f"{t}: key does not include `{alts}` - {why}{lossy}", key=f"{t}.{alts}{how}")
             for e in exprs:
                 for c in [c for c in ast.walk(e) if isinstance(c, ast.Call) and isinstance(c.func, ast.Attribute) and c.func.attr in ("flatten", "ravel", "tobytes", "tolist", "reshape") and norm(c.func.value) == "obj"]:
                     bad_order = [k for k in c.keywords if k.arg == "order" and not (isinstance(k.value, ast.Constant) and k.value.value == "C")]
@@ -490,7 +517,7 @@ def rule_sole(ctx: Ctx) -> None:  # noqa: C901
 
 def check(ctx: Ctx) -> None:
     _roles(ctx)
-    for rule in (rule_tagged, rule_dispatch, rule_order_and_recursion, rule_total, rule_identity, rule_stable, rule_sole):
+    for rule in (rule_tagged, rule_dispatch, rule_order_and_recursion, rule_no_preflattening, rule_total, rule_identity, rule_stable, rule_sole):
         ctx.run(rule)
 
 
